@@ -289,7 +289,7 @@ pub fn respace(text: &str, rng: &mut Rng) -> String {
         Err(_) => return text.to_string(),
     };
     let mut out = String::new();
-    let ws = [" ", "  ", "\t", "\n", "\r\n", " \n "];
+    let ws = [" ", "  ", "\t", "\n", "\r\n", " \n ", "\r", "\r\r"];
     for (i, t) in toks.iter().enumerate() {
         if t.tok == Tok::Eof {
             if rng.chance(1, 10) {
